@@ -297,13 +297,19 @@ const (
 
 // runHop carries the org id of ctx over one hop and returns the receiving side's context.
 func runHop(h hop, ctx context.Context) (context.Context, error) {
+	return runHopOn(h, ctx, context.Background())
+}
+
+// runHopOn: the receiving side starts from serverBase (which may already carry an org id of its own,
+// e.g. an in-process call or stacked interceptors): what arrives must still be the sender's id.
+func runHopOn(h hop, ctx context.Context, serverBase context.Context) (context.Context, error) {
 	switch h {
 	case hopHTTP:
 		req := httptest.NewRequest("GET", "http://x/", nil)
 		if err := user.InjectOrgIDIntoHTTPRequest(ctx, req); err != nil {
 			return nil, err
 		}
-		_, out, err := user.ExtractOrgIDFromHTTPRequest(req)
+		_, out, err := user.ExtractOrgIDFromHTTPRequest(req.WithContext(serverBase))
 		return out, err
 	case hopHTTPMiddleware:
 		req := httptest.NewRequest("GET", "http://x/", nil)
@@ -312,7 +318,7 @@ func runHop(h hop, ctx context.Context) (context.Context, error) {
 		}
 		var out context.Context
 		rec := httptest.NewRecorder()
-		middleware.AuthenticateUser.Wrap(http.HandlerFunc(func(_ http.ResponseWriter, r *http.Request) { out = r.Context() })).ServeHTTP(rec, req)
+		middleware.AuthenticateUser.Wrap(http.HandlerFunc(func(_ http.ResponseWriter, r *http.Request) { out = r.Context() })).ServeHTTP(rec, req.WithContext(serverBase))
 		if out == nil {
 			if rec.Code != http.StatusUnauthorized {
 				return nil, fmt.Errorf("handler not called but status %d", rec.Code)
@@ -326,14 +332,14 @@ func runHop(h hop, ctx context.Context) (context.Context, error) {
 			return nil, err
 		}
 		md, _ := metadata.FromOutgoingContext(octx)
-		_, out, err := user.ExtractFromGRPCRequest(metadata.NewIncomingContext(context.Background(), md.Copy()))
+		_, out, err := user.ExtractFromGRPCRequest(metadata.NewIncomingContext(serverBase, md.Copy()))
 		return out, err
 	default:
 		var out context.Context
 		var herr error
 		invoker := func(ictx context.Context, _ string, _, _ interface{}, _ *grpc.ClientConn, _ ...grpc.CallOption) error {
 			md, _ := metadata.FromOutgoingContext(ictx)
-			_, herr = middleware.ServerUserHeaderInterceptor(metadata.NewIncomingContext(context.Background(), md.Copy()), nil, nil,
+			_, herr = middleware.ServerUserHeaderInterceptor(metadata.NewIncomingContext(serverBase, md.Copy()), nil, nil,
 				func(sctx context.Context, _ interface{}) (interface{}, error) { out = sctx; return nil, nil })
 			return herr
 		}
@@ -356,8 +362,13 @@ func TestHopChainRapid(t *testing.T) {
 		if vx.WantSample("hop_chain") && len(hops) >= 3 && len(org) < 20 {
 			vx.Sample("hop_chain", map[string]any{"org": fmt.Sprintf("%q", org), "hops": hops})
 		}
+		staleServer := rapid.Bool().Draw(rt, "serverContextCarriesAnotherOrg")
 		for i, h := range hops {
-			out, err := runHop(hop(h), ctx)
+			base := context.Background()
+			if staleServer {
+				base = user.InjectOrgID(base, "tenant-earlier")
+			}
+			out, err := runHopOn(hop(h), ctx, base)
 			if org == "" && (hop(h) == hopHTTP || hop(h) == hopHTTPMiddleware) {
 				if err != user.ErrNoOrgID {
 					rt.Fatalf("hop %d (%d): an empty org id over HTTP must be rejected with ErrNoOrgID, got %v", i, h, err)
@@ -406,15 +417,23 @@ func TestNoOrgIDRejected(t *testing.T) {
 	if _, err := user.InjectIntoGRPCRequest(bg); err != user.ErrNoOrgID {
 		t.Fatalf("grpc inject without org id: %v", err)
 	}
-	for _, md := range []metadata.MD{nil, metadata.Pairs("x-scope-orgid", "a", "x-scope-orgid", "b"), metadata.Pairs("other", "a")} {
-		if id, _, err := user.ExtractFromGRPCRequest(metadata.NewIncomingContext(bg, md)); err != user.ErrNoOrgID || id != "" {
-			t.Fatalf("grpc extract with metadata %v: %q %v", md, id, err)
+	for _, base := range []context.Context{bg, user.InjectOrgID(bg, "tenant-earlier")} {
+		for _, md := range []metadata.MD{nil, metadata.Pairs("x-scope-orgid", "a", "x-scope-orgid", "b"), metadata.Pairs("other", "a")} {
+			vx.Eval(2)
+			if id, _, err := user.ExtractFromGRPCRequest(metadata.NewIncomingContext(base, md)); err != user.ErrNoOrgID || id != "" {
+				t.Fatalf("grpc extract with metadata %v (receiving context carries an org id: %v): %q %v", md, base != bg, id, err)
+			}
+			if _, err := middleware.ServerUserHeaderInterceptor(metadata.NewIncomingContext(base, md), nil, nil, func(context.Context, interface{}) (interface{}, error) {
+				t.Fatalf("handler called without org id")
+				return nil, nil
+			}); err != user.ErrNoOrgID {
+				t.Fatalf("server interceptor with metadata %v (receiving context carries an org id: %v): %v", md, base != bg, err)
+			}
 		}
-		if _, err := middleware.ServerUserHeaderInterceptor(metadata.NewIncomingContext(bg, md), nil, nil, func(context.Context, interface{}) (interface{}, error) {
-			t.Fatalf("handler called without org id")
-			return nil, nil
-		}); err != user.ErrNoOrgID {
-			t.Fatalf("server interceptor with metadata %v: %v", md, err)
+		// HTTP: a request without the header, whose context already carries an org id
+		reqNo := httptest.NewRequest("GET", "http://x/", nil).WithContext(base)
+		if id, _, err := user.ExtractOrgIDFromHTTPRequest(reqNo); err != user.ErrNoOrgID || id != "" {
+			t.Fatalf("http extract without header (receiving context carries an org id: %v): %q %v", base != bg, id, err)
 		}
 	}
 	// conflicting pre-existing values
